@@ -247,7 +247,7 @@ void scan_case(Ctx& c, FaultProbe& probe, const std::string& text, const std::st
   const bool same = diff.empty();
   if (sc.nested) c.rep.count(same ? "nested_unasserted_agree_with_outer_group_reading" : "nested_unasserted_differ/" + diff.substr(4));
   for (auto& g : sc.groups) if (g.terminated && !g.nested) check_parse(c, g);
-  c.rep.count("evaluations");
+  c.rep.count("evaluations"); c.rep.count("evaluations_" + family);
   bool anyRef = false; for (auto& g : sc.groups) anyRef = anyRef || (g.terminated && g.ref.kind != rr::Kind::none);
   if (anyRef) c.rep.count("nontrivial");
   c.rep.outcome(family + ":" + scan_class(sc) + (same ? "" : "+DIFF"));
@@ -255,12 +255,17 @@ void scan_case(Ctx& c, FaultProbe& probe, const std::string& text, const std::st
   c.done();
 }
 
-template <class F> void for_sequences(Ctx& c, size_t alphabet, int maxLen, F&& f) {   // f(indices) is called only when take() said so
+// The only two tokenisations of one text are [@][{] and [@{]: sequences with '@' directly before '{' are left out,
+// so every text of the token family is enumerated exactly once.
+constexpr int kTokAt = 14, kTokBrace = 15;
+bool redundant_tokenisation(const std::vector<int>& idx) { for (size_t i = 0; i + 1 < idx.size(); ++i) if (idx[i] == kTokAt && idx[i + 1] == kTokBrace) return true; return false; }
+
+template <class F> void for_sequences(Ctx& c, size_t alphabet, int maxLen, bool tokens, F&& f) {   // f(indices) is called only when take() said so
   std::vector<int> idx;
   for (int len = 0; len <= maxLen && !c.stop(); ++len) {
     idx.assign(static_cast<size_t>(len), 0);
     while (true) {
-      if (c.take()) f(idx);
+      if (!(tokens && redundant_tokenisation(idx)) && c.take()) f(idx);
       int p = len - 1;
       while (p >= 0 && ++idx[static_cast<size_t>(p)] == static_cast<int>(alphabet)) { idx[static_cast<size_t>(p)] = 0; --p; }
       if (p < 0) break;
@@ -514,6 +519,7 @@ int main(int argc, char** argv) {
   signal(SIGPIPE, SIG_IGN);
   Options opt = parse_args(argc, argv);
   opt.max_crashes_per_shard = static_cast<int>(opt.num("max-crashes", 200));
+  if (kTokens[kTokAt] != "@" || kTokens[kTokBrace] != "{") { fprintf(stderr, "HARNESS-ERROR token indices\n"); return 2; }
   anchors();
   const double t0 = now_s();
   Result res; res.property = "C17"; res.harness = "h_refs"; res.mode = opt.mode; res.tier = opt.tier;
@@ -526,16 +532,19 @@ int main(int argc, char** argv) {
     res.rep = run_sharded(opt, "scan", [&](Ctx& c) {
       FaultProbe probe;
       // raw family first: it is the cheap one, and a worker restart after a crash re-runs everything before the crash
-      for_sequences(c, kRaw.size(), R, [&](const std::vector<int>& idx) { std::string s; for (int k : idx) s += kRaw[static_cast<size_t>(k)]; scan_case(c, probe, s, "raw"); });
-      for_sequences(c, kTokens.size(), T, [&](const std::vector<int>& idx) { scan_case(c, probe, join_tokens(idx), "tok"); });
+      for_sequences(c, kRaw.size(), R, false, [&](const std::vector<int>& idx) { std::string s; for (int k : idx) s += kRaw[static_cast<size_t>(k)]; scan_case(c, probe, s, "raw"); });
+      for_sequences(c, kTokens.size(), T, true, [&](const std::vector<int>& idx) { scan_case(c, probe, join_tokens(idx), "tok"); });
       c.rep.count("fault_probes", probe.probes);
     }, &ri);
     res.completed_bound = "all sequences of <= " + std::to_string(T) + " tokens over a " + std::to_string(kTokens.size()) + "-token alphabet + all raw strings of <= " + std::to_string(R) + " characters over {@ { } | X 1 ,}";
     res.alphabet = tokenAlphabet;
-    res.rule = "case = one text (distinct by construction within each family); non-trivial = the grammar finds >= 1 reference; per case: ExtractAll list (kinds, fields, code-point ranges) vs the independent scanner, "
+    res.rule = "case = one text (each text once per family: token sequences with the redundant tokenisation [@][{] of [@{] are left out; the two families share only reference-free texts over {@ { } |}); non-trivial = the grammar finds >= 1 reference; per case: ExtractAll list (kinds, fields, code-point ranges) vs the independent scanner, "
                "order / disjointness / each range spells one group that re-parses to the same reference, Parse + ToString + re-Parse of every group; texts with a '{' inside a group are run but the list equality is not asserted";
   } else if (opt.mode == "resolve") {
     const int T = static_cast<int>(opt.num("tokens", opt.thorough() ? 5 : 4));
+    // sequences longer than `fullctx` tokens are resolved under the multibyte and ascii contexts only (cost)
+    const int F = static_cast<int>(opt.num("fullctx", T));
+    const std::vector<size_t> ctxOrder = { 1, 0, 2 };   // multibyte, ascii, empty
     res.rep = run_sharded(opt, "resolve", [&](Ctx& c) {
       FaultProbe probe;
       // the library-side contexts live as long as the worker (their terms cache inflected forms, as in real use)
@@ -544,7 +553,7 @@ int main(int argc, char** argv) {
       for (int len = 0; len <= T && !c.stop(); ++len) {
         idx.assign(static_cast<size_t>(len), 0);
         while (true) {
-          for (size_t ci = 0; ci < contexts.size(); ++ci) if (c.take()) resolve_case(c, probe, join_tokens(idx), contexts[ci], *hctx[ci]);
+          if (!redundant_tokenisation(idx)) for (size_t k = 0; k < (len <= F ? contexts.size() : size_t{ 2 }); ++k) { const size_t ci = ctxOrder[k]; if (c.take()) resolve_case(c, probe, join_tokens(idx), contexts[ci], *hctx[ci]); }
           int p = len - 1;
           while (p >= 0 && ++idx[static_cast<size_t>(p)] == static_cast<int>(kTokens.size())) { idx[static_cast<size_t>(p)] = 0; --p; }
           if (p < 0) break;
@@ -552,9 +561,10 @@ int main(int argc, char** argv) {
       }
       c.rep.count("fault_probes", probe.probes);
     }, &ri);
-    res.completed_bound = "all sequences of <= " + std::to_string(T) + " tokens over a " + std::to_string(kTokens.size()) + "-token alphabet x 3 term contexts";
+    res.completed_bound = "all sequences of <= " + std::to_string(std::min(T, F)) + " tokens over a " + std::to_string(kTokens.size()) + "-token alphabet x 3 term contexts" +
+                          (T > F ? " + all sequences of " + std::to_string(F + 1) + ".." + std::to_string(T) + " tokens x 2 term contexts (multibyte, ascii)" : "");
     res.alphabet = tokenAlphabet + "   contexts: ascii (X1=Test, X2=cat with manual sing,datv form, X4 empty, X3 missing; default processor) | multibyte (X1 2 code points, X2 17 code points, marking processor) | empty (X1,X3 missing, X2 with empty manual form, X4 empty)";
-    res.rule = "case = (text, context); non-trivial = >= 1 reference; per case: Resolve output byte-for-byte vs segment model, per reference fields / range / resolution / range delimits resolution, OutputRefs(resolved) = canonical input, "
+    res.rule = "case = (text, context), each text once (redundant tokenisation [@][{] left out); non-trivial = >= 1 reference; per case: Resolve output byte-for-byte vs segment model, per reference fields / range / resolution / range delimits resolution, OutputRefs(resolved) = canonical input, "
                "ManagedText Raw/Str/Referals, TranslateRaw x3 translators + UpdateFrom; cases whose ExtractAll already differs from the grammar are reported once and skipped downstream";
   } else if (opt.mode == "edit") {
     const int D = static_cast<int>(opt.num("depth", opt.thorough() ? 3 : 2));
